@@ -14,15 +14,15 @@ structure HR.WF2 (I : HR) : Prop where
   strictH : ∀ row ∈ I.H, StrictRow row
 
 /-- Bool version of `StrictRow` that does not mention the sorted list. -/
-def strictRowB (row : List (Option Nat)) : Bool :=
+def hrStrictRowB (row : List (Option Nat)) : Bool :=
   (List.range row.length).all fun a => (List.range row.length).all fun b =>
     !((row.getD a none).isSome && (row.getD b none).isSome && keyOf row a == keyOf row b) || a == b
 
-theorem strictRowB_sound (row : List (Option Nat)) (h : strictRowB row = true) : StrictRow row := by
+theorem strictRowB_sound (row : List (Option Nat)) (h : hrStrictRowB row = true) : StrictRow row := by
   intro a b ha hb hk
   obtain ⟨hal, has⟩ := (mem_plistOfRow row a).mp ha
   obtain ⟨hbl, hbs⟩ := (mem_plistOfRow row b).mp hb
-  unfold strictRowB at h
+  unfold hrStrictRowB at h
   rw [List.all_eq_true] at h
   have h1 := h a (List.mem_range.mpr hal)
   rw [List.all_eq_true] at h1
@@ -30,8 +30,8 @@ theorem strictRowB_sound (row : List (Option Nat)) (h : strictRowB row = true) :
   rw [has, hbs, hk] at h2
   simpa using h2
 
-theorem strictRowB_complete (row : List (Option Nat)) (h : StrictRow row) : strictRowB row = true := by
-  unfold strictRowB
+theorem strictRowB_complete (row : List (Option Nat)) (h : StrictRow row) : hrStrictRowB row = true := by
+  unfold hrStrictRowB
   rw [List.all_eq_true]
   intro a ha
   rw [List.all_eq_true]
@@ -47,8 +47,8 @@ theorem strictRowB_complete (row : List (Option Nat)) (h : StrictRow row) : stri
 /-- Decidable well-formedness check. -/
 def HR.wfB (I : HR) : Bool :=
   I.R.length == I.n && I.H.length == I.m && I.cap.length == I.m &&
-  I.R.all (fun row => row.length == I.m && strictRowB row) &&
-  I.H.all (fun row => row.length == I.n && strictRowB row)
+  I.R.all (fun row => row.length == I.m && hrStrictRowB row) &&
+  I.H.all (fun row => row.length == I.n && hrStrictRowB row)
 
 theorem HR.wfB_sound (I : HR) (h : I.wfB = true) : I.WF2 := by
   unfold HR.wfB at h
